@@ -53,8 +53,83 @@ def run(ctx, run):
     _admission(ctx, run)
     _pattern_row_moves(ctx, run)
     _debug_after_geometry(ctx, run)
+    _payload_once(ctx, run)
     from .. import sweep
     sweep.run(ctx, run, ["src/raw_decoder.c", "src/bit_slicer.c", "src/decoder.c", "src/sampling_par.c"], SWEEP_TRUSTED, 110, 1)
+
+def _payload_once(ctx, run):
+    """The slicers copy the payload in one of the formats bs->endian selects.  Each case of that switch
+    writes up to `payload` units through the output pointer, so a case that falls into another one
+    writes the payload twice: the second copy lands behind the buffer the caller sized for one."""
+    P = ctx.prog
+    REC = "_vbi3_bit_slicer"
+    fns = [P.func(n, BS) for n in sorted(ctx.sums.slots.get(("fld", REC, "func"), set()))]
+    fns.append(P.func("vbi3_bit_slicer_slice_with_points", BS))
+    n_sw = 0
+    for f in fns:
+        if f is None or f.cfg_failed:
+            continue
+        reach = f.reachable_blocks()
+        ptr_params = {p["name"] for p in f.params if p.get("t", "").rstrip().endswith("*")}
+
+        def out_stores(bids):
+            res = []
+            for b in bids:
+                for i in flow.events(f, b):
+                    for lhs, var, op, rhs in flow.stores(f, i):
+                        if lhs is None:
+                            continue
+                        le = f.exprs[ex.skip(f, lhs)]
+                        if le["k"] in ("un", "idx"):
+                            j = ex.skip(f, le["c"][0])
+                            while f.exprs[j]["k"] in ("un", "cast") and f.exprs[j].get("c"):
+                                j = ex.skip(f, f.exprs[j]["c"][0])          # *buffer++, *(uint8_t *) p
+                            r = f.exprs[j]
+                            if r["k"] == "ref" and r.get("name") in ptr_params and r.get("dk") == "param":
+                                res.append(i)
+            return res
+        for sb in reach:
+            t = f.blocks[sb].term
+            if not t or t.get("kind") != "SwitchStmt" or "cond" not in t:
+                continue
+            if not any(f.exprs[n]["k"] == "mem" and f.exprs[n].get("in") == REC and f.exprs[n]["member"] == "endian"
+                       for n in ex.walk(f, t["cond"])):
+                continue
+            n_sw += 1
+            run.touch(f)
+            targets = {s for s, lab in f.edges(sb) if isinstance(lab, tuple) or (f.blocks[s].label or {}).get("default")}
+            after = {s for s, lab in f.edges(sb) if lab == "default" and s not in targets}
+            # what every case reaches is behind the switch, not part of a case
+            common = None
+            for x in targets:
+                r0 = flow.reach_from(f, x, avoid={sb})
+                common = r0 if common is None else (common & r0)
+            after = after | (common or set())
+            key = "RF-CORR:%s:payload-copied-once" % f.name
+            bad = None
+            for y in targets:
+                for pbid in f.blocks[y].preds:
+                    if pbid == sb or pbid not in reach:
+                        continue
+                    # blocks of the falling case: reachable from the other labels, reaching pbid
+                    falling = set()
+                    for x in targets - {y}:
+                        r1 = flow.reach_from(f, x, avoid=targets - {x} | after)
+                        if pbid in r1:
+                            falling |= r1
+                    body_y = flow.reach_from(f, y, avoid=targets - {y} | after)
+                    if falling and out_stores(falling) and out_stores(body_y):
+                        bad = (pbid, y, out_stores(body_y)[0])
+            if bad:
+                run.violation("RF-CORR", key, "in the switch on bs->endian a case that writes the payload through the output pointer "
+                              "falls into the case at line %d, which writes it again (`%s`): twice the payload is written into a "
+                              "buffer that was checked for one" % (f.exprs[bad[2]]["line"], ex.pretty(f, bad[2])[:50]),
+                              ex.loc(f, bad[2]), witness={"function": f.name})
+            else:
+                run.holds("RF-CORR", key, "each case of the switch on bs->endian that writes the payload leaves the switch", 
+                          "%s:%d" % (f.file, t.get("line", f.line)))
+    run.floor("payload format switches in the slicer functions", n_sw, 5)
+
 
 def _output_capacity(ctx, run, f, dp):
     run.touch(f)
@@ -156,7 +231,15 @@ def _payload_guard(ctx, run, f):
         units = _payload_units(ctx)
         unit_ok = any(a.rel == "<=" and a.L.has("_vbi3_bit_slicer.payload") and a.R is not None
                       and (a.R.has("_vbi3_bit_slicer.endian") or a.L.has("_vbi3_bit_slicer.endian")) for a in ats)
-        if ok and len(units) > 1 and not unit_ok:
+        rounded = None
+        for a in ats:
+            if a.rel == "<=" and a.L.has("_vbi3_bit_slicer.payload") and a.R is not None and a.L.node is not None:
+                rounded = rounded or _rounds_down(f, a.L.node, "payload")
+        if ok and rounded:
+            run.violation("RF-UNIT", "RF-UNIT:%s:payload-guard-rounding" % f.name, "the buffer test compares `%s` with the buffer size: "
+                          "the division rounds the payload down, so a payload that is not a multiple of the divisor passes the test "
+                          "with a buffer one octet too small" % rounded, ex.loc(f, i))
+        elif ok and len(units) > 1 and not unit_ok:
             run.violation("RF-UNIT", "RF-UNIT:%s:payload-guard-unit" % f.name, "bs->payload is stored in %d different units by "
                           "vbi3_bit_slicer_set_params (%s) but the buffer test does not read bs->endian, which selects the unit: "
                           "for byte aligned payloads a buffer eight times too small passes the test and the slicer writes past it"
@@ -169,6 +252,30 @@ def _payload_guard(ctx, run, f):
         else:
             run.violation("RF-DOM", key, "the slicer function is called without the payload-vs-buffer_size test: the payload is written "
                           "into a buffer that may be too small", ex.loc(f, i))
+
+
+def _rounds_down(f, node, member):
+    """A `/ d` or `>> k` applied to a size that mentions `member` without `+ (d - 1)` first (rendering), else None."""
+    for n in ex.walk(f, node):
+        e = f.exprs[n]
+        if e["k"] != "bin" or e["op"] not in (">>", "/"):
+            continue
+        d = ex.const(f, e["c"][1])
+        if d is None:
+            continue
+        div = (1 << d) if e["op"] == ">>" else d
+        if div <= 1:
+            continue
+        num = ex.skip(f, e["c"][0])
+        if not any(f.exprs[m]["k"] == "mem" and f.exprs[m]["member"] == member for m in ex.walk(f, num)):
+            continue
+        ne = f.exprs[num]
+        if ne["k"] == "bin" and ne["op"] == "+":
+            cs = [ex.const(f, c) for c in ne["c"]]
+            if any(c is not None and c >= div - 1 for c in cs):
+                continue
+        return ex.pretty(f, n)
+    return None
 
 
 def _init(ctx, run):
@@ -391,6 +498,33 @@ def _provenance(ctx, run, f):
     else:
         run.holds("RF-DEP", key, "bs->cri_samples depends on samples_per_line, sample_offset, payload_bits, frc_bits, sampling_rate and "
                   "payload_rate", "%s:%d" % (f.file, f.line))
+    # the search limit itself: counted from sample_offset, it leaves room for the data behind it -
+    #   bs->cri_samples + sample_offset + data_samples <= samples_per_line
+    # decided as a linear inequality over the stored expression (MIN arms are upper bounds; locals are followed to
+    # their reaching definitions; mathematical integers - the operands were range-checked by the 'fits' test above)
+    from .. import linear
+    st = [(i, rhs) for b, i in flow.all_events(f) for lhs, var, op, rhs in flow.stores(f, i)
+          if lhs is not None and op == "=" and f.exprs[ex.skip(f, lhs)]["k"] == "mem"
+          and f.exprs[ex.skip(f, lhs)]["member"] == "cri_samples" and f.exprs[ex.skip(f, lhs)].get("in") == "_vbi3_bit_slicer"]
+    run.floor("stores of bs->cri_samples in vbi3_bit_slicer_set_params", len(st), 1)
+    for i, rhs in st:
+        forms = linear.upper_bounds(f, rhs, i)
+        good = None
+        for co, k in forms:
+            rest = {n: v for n, v in co.items() if n not in (samples_per_line, sample_offset)}
+            if co.get(samples_per_line) == 1 and co.get(sample_offset) == -1 and k <= 0 and len(rest) == 1:
+                dn, dv = list(rest.items())[0]
+                if dv <= -1 and {payload_bits, frc_bits} <= _closure(d, [dn]):
+                    good = (co, k)
+        key = "RF-LIN:vbi3_bit_slicer_set_params:search-window-budget"
+        if good:
+            run.holds("RF-LIN", key, "bs->cri_samples <= %s: the CRI search, counted from sample_offset, ends early enough for FRC and "
+                      "payload to fit the line" % linear.fmt(good), ex.loc(f, i))
+        else:
+            run.violation("RF-LIN", key, "no upper bound of `%s` has the form samples_per_line - sample_offset - <data samples>: the "
+                          "bounds derived are %s, so a CRI found at the end of the search window leaves FRC/payload to be sampled past "
+                          "samples_per_line" % (ex.pretty(f, i)[:90], "; ".join(linear.fmt(x) for x in forms) or "none"),
+                          ex.loc(f, i), witness={"function": f.name, "bounds": [linear.fmt(x) for x in forms]})
     # the 'does not fit' guard dominates the TRUE return and uses the same data length
     true_rets = [i for b, i in flow.all_events(f) if f.exprs[i]["k"] == "ret" and f.exprs[i].get("c")
                  and ex.const(f, f.exprs[i]["c"][0]) not in (0, None)]
